@@ -159,15 +159,26 @@ def module_object_entry_point(ctx, n):
         try:
             rootmod = importlib.import_module(root)
             mod = importlib.import_module(scan.dotted(mp))
+            # the same options through both entry points: none, a custom exclusion, externals kept, a level limit - and
+            # byte-code cache directories in the tree (importing the packages normally creates them)
+            for d0 in rng.sample(dirs, min(len(dirs), 2)):
+                os.makedirs(os.path.join(str(base), *d0, "__pycache__"), exist_ok=True)
+                open(os.path.join(str(base), *d0, "__pycache__", "x.cpython-312.pyc"), "wb").close()
+            kw = rng.choice([{}, {}, {"exclusions": ("*zz_nothing*",)}, {"exclusions": ("*" + rng.choice(sorted({f[-1] for f in files})) + ".py",)},
+                             {"exclude_external_libraries": False}, {"level_limit": rng.randint(1, 3)},
+                             {"exclusions": ("*__pycache__*", "*" + rng.choice(sorted({f[-1] for f in files})) + "*")}])
             try:
-                arch = get_evaluable_architecture_for_module_objects(rootmod, mod)
+                arch = get_evaluable_architecture_for_module_objects(rootmod, mod, **kw)
                 a = ("OK", sorted(arch.modules), sorted(set(rules.observe(arch, [], [])[1])))
             except Exception as e:  # noqa: BLE001
                 a = ("ERR", type(e).__name__, str(e)[:200])
-            b = scan.real_scan(base, root, mp)[:3]
+            b = scan.real_scan(base, root, mp, **kw)[:3]
+            if a[0] == "ERR" and b[0] == "ERR":
+                a, b = ("ERR", a[1]), ("ERR", b[1].split(":", 1)[0])      # both entry points reject: same exception type required
             ctx.evaluations += 1
             if a != b:
-                ctx.violation(dict(dirs=[list(d) for d in dirs], files=sorted(scan.dotted(f) for f in files), module_path=list(mp), module_objects=str(a)[:400], paths=str(b)[:400]),
+                ctx.violation(dict(dirs=[list(d) for d in dirs], files=sorted(scan.dotted(f) for f in files), module_path=list(mp), options={k0: list(v0) if isinstance(v0, tuple) else v0 for k0, v0 in kw.items()},
+                                   module_objects=str(a)[:400], paths=str(b)[:400]),
                               "module-object entry point builds a different architecture than the path entry point", {"kind": "entry_point"})
             ctx.mark_nontrivial(("mo", root))
         finally:
